@@ -1620,6 +1620,8 @@ class Interp:
             return self.fresh("item")
         if isinstance(c, _DefaultDict) and not isinstance(k, Unknown):
             try:
+                if k not in c and c.factory is _ZERO:
+                    return 0
                 if k not in c:
                     if c.factory is None:
                         raise PyRaise(ExcVal("KeyError", (k,)))
@@ -1972,6 +1974,21 @@ class Interp:
             ml = kwargs.get("maxlen", args[1] if len(args) > 1 else None)
             d = _Deque(items, ml)
             return d
+        if name == "object" and not args and not kwargs:
+            return Obj(None, {}, tag="sentinel")      # a fresh object: only its identity matters
+        if name in ("collections.Counter", "Counter"):
+            c_ = _DefaultDict(_ZERO)
+            if args:
+                src_ = args[0]
+                if isinstance(src_, dict):
+                    for k_, v_ in src_.items():
+                        c_[k_] = v_
+                else:
+                    for k_ in self.iterate(src_):
+                        c_[k_] = c_.get(k_, 0) + 1
+            for k_, v_ in kwargs.items():
+                c_[k_] = v_
+            return c_
         if name in ("collections.defaultdict", "defaultdict"):
             return _DefaultDict(args[0] if args else None)
         if name in ("functools.partial", "partial") and args:
@@ -2037,8 +2054,15 @@ class Interp:
             for a in self.iterate(args[0]):
                 out.extend(self.iterate(a))
             return out
-        if name in ("itertools.islice",) and len(args) == 2 and isinstance(args[1], int):
-            return list(self.iterate(args[0]))[:args[1]]
+        if name in ("itertools.islice", "islice") and 2 <= len(args) <= 4 and all(a is None or isinstance(a, int) for a in args[1:]):
+            items = list(self.iterate(args[0]))
+            if len(args) == 2:
+                sl = slice(None, args[1])
+            else:
+                sl = slice(*args[1:])
+            if any(a is not None and a < 0 for a in args[1:]):
+                raise PyRaise(ExcVal("ValueError", ("Indices for islice() must be None or an integer: 0 <= x <= sys.maxsize.",)))
+            return items[sl]
         if last in ("Lock", "RLock", "Event", "Thread", "Condition", "Semaphore"):
             return Obj(None, {}, tag=last)
         if name in ("time.time", "time.monotonic", "time.perf_counter") or last in ("now", "utcnow", "today"):
@@ -2189,6 +2213,20 @@ class Interp:
                 last_ = kwargs.get("last", args[0] if args else True)
                 k = list(recv.keys())[-1 if last_ else 0]
                 return (k, recv.pop(k))
+        if isinstance(recv, _DefaultDict) and recv.factory is _ZERO:
+            if name == "most_common":
+                items = sorted(recv.items(), key=lambda kv: -kv[1])
+                return items[:args[0]] if args and args[0] is not None else items
+            if name == "elements":
+                return [k for k, v in recv.items() for _ in range(v)]
+            if name in ("update", "subtract") and args:
+                sign = 1 if name == "update" else -1
+                src_ = args[0]
+                for k_ in (src_.keys() if isinstance(src_, dict) else self.iterate(src_)):
+                    recv[k_] = recv.get(k_, 0) + sign * (src_[k_] if isinstance(src_, dict) else 1)
+                return None
+            if name == "total":
+                return sum(recv.values())
         if isinstance(recv, _Deque):
             ml = recv.maxlen
             if name == "append":
@@ -2330,6 +2368,14 @@ class _Deque(list):
         self.maxlen = maxlen
         if maxlen is not None and len(self) > maxlen:
             del self[:len(self) - maxlen]
+
+
+def _zero(interp, args, kwargs):
+    return 0
+
+
+_zero._opsa_stub = True
+_ZERO = _zero
 
 
 class _DefaultDict(dict):
